@@ -77,68 +77,167 @@ def gen_cases(ctx, n):
     return cases
 
 
+def point_in_frame(area, u, v):
+    """position (lat, lon in wire units) that lies at (u along the azimuth, v perpendicular) metres in the frame of the area"""
+    clat, clon, _a, _b, angle, _shape = area
+    th = math.radians(angle)
+    north = u * math.cos(th) - v * math.sin(th)
+    east = u * math.sin(th) + v * math.cos(th)
+    lat_c, lon_c = clat / 1e7, clon / 1e7
+    lat_e = lat_c + math.degrees(north / rs.R_EARTH)
+    lon_e = lon_c + math.degrees(east / (rs.R_EARTH * math.cos(math.radians((lat_e + lat_c) / 2))))
+    return int(round(lat_e * 1e7)), int(round(lon_e * 1e7))
+
+
+# rectangles whose size 4ab is EXACTLY itsGnMaxGeoAreaSize (not larger: to be accepted / forwarded), per limit in km2
+EXACT_RECT = {1: [(500, 500), (250, 1000), (1000, 250), (125, 2000), (4, 62500)],
+              10: [(2500, 1000), (1000, 2500), (50, 50000), (40, 62500)],
+              100: [(5000, 5000), (2500, 10000), (500, 50000), (400, 62500)]}
+
+
 def run_cases(ctx, n_cases):
     rng = ctx.rng
-    egos = [(413800000, 21100000), (-338688000, 1512093000), (600000000, -1000000000), (-100, -100), (10, 1799000000)]
+    egos = [(413800000, 21100000), (-338688000, 1512093000), (600000000, -1000000000), (-100, -100), (10, 1799000000),
+            (850000000, 100000000), (-850000000, 300000000)]
     per = 60
     for start in range(0, n_cases, per):
-        ego = egos[(start // per) % len(egos)]
+        batch = start // per
+        ego = egos[batch % len(egos)]
         rs.VCLOCK.set_ms(1_700_000_000_000 + start * 1000)
         maxa = rng.choice([10, 10, 1, 100])
-        st = rs.Station(area_alg=rng.choice(["SIMPLE", "CBF", "UNSPECIFIED"]), ego=ego, max_area_km2=maxa)
-        sc = rs.Scenario(rng, st, n_sources=4)
+        st = rs.Station(area_alg=rng.choice(["SIMPLE", "CBF", "UNSPECIFIED"]), ego=ego, max_area_km2=maxa,
+                        mobile=rng.random() < 0.7)
+        sc = rs.Scenario(rng, st, n_sources=4, rich=True)
         evs, meta = [], []
-        # mostly with one neighbour (then forwarding is not suppressed by store-carry-forward); a share of the batches
-        # has no neighbour at all, and packets carry SCF = 1 now and then: the size / Annex D clauses hold there too
-        if (start // per) % 4 != 3:
-            evs.append(sc.rx_event("beacon", src=sc.sources[0], rhl=1, mhl=1))
-            meta.append(None)
-        for (shape, a, b, angle, u, v, mode) in gen_cases(ctx, per):
-            area = place_area(rng, ego, shape, a, b, angle, u, v)
-            kind = rng.choice(["gbc", "gac"])
-            if rng.random() < 0.15:
-                q = sc.request_event("req_geo")
-                r = q["r"]
-                r[3], r[4] = (4 if kind == "gbc" else 3), shape
-                r[8:13] = [area[0], area[1], a, b, angle]
-                q["area"], q["dests"] = area, [(area[0], area[1])]
-                evs.append(q)
-                meta.append(("req", area, mode))
-            else:
-                src = rng.choice(sc.sources[1:])
-                ev = sc.rx_event(kind, src=src, area=area, rhl=rng.choice([2, 3, 10]), mhl=10, scf=(rng.random() < 0.25))
-                evs.append(ev)
-                meta.append(("rx", area, mode))
+        used = []          # (area, kind) of the packets sent so far in this batch
+
+        def add_rx(area, kind, mode, tag=""):
+            src = rng.choice(sc.sources[1:])
+            ev = sc.rx_event(kind, src=src, area=area, rhl=rng.choice([2, 3, 10]), mhl=10, scf=(rng.random() < 0.25))
+            evs.append(ev)
+            meta.append(("rx", area, mode + tag, ego))
+            used.append((area, kind))
             sc.now += rng.choice([1, 20, 300])
             evs.append({"ev": "tick", "ms": 1})
             meta.append(None)
+
+        def add_req(area, kind, mode, tag=""):
+            q = sc.request_event("req_geo")
+            r = q["r"]
+            r[3], r[4] = (4 if kind == "gbc" else 3), area[5]
+            r[8:13] = [area[0], area[1], area[2], area[3], area[4]]
+            q["area"], q["dests"] = area, [(area[0], area[1])]
+            evs.append(q)
+            meta.append(("req", area, mode + tag, ego))
+
+        # mostly with one neighbour (then forwarding is not suppressed by store-carry-forward); a share of the batches
+        # has no neighbour at all, and packets carry SCF = 1 now and then: the size / Annex D clauses hold there too
+        if batch % 4 != 3:
+            evs.append(sc.rx_event("beacon", src=sc.sources[0], rhl=1, mhl=1))
+            meta.append(None)
+        for ci, (shape, a, b, angle, u, v, mode) in enumerate(gen_cases(ctx, per)):
+            area = place_area(rng, ego, shape, a, b, angle, u, v)
+            kind = rng.choice(["gbc", "gac"])
+            if abs(area[0]) > 900000000 or abs(area[1]) >= 2 ** 31:
+                ctx.count(1, "skipped_centre_outside_wgs84_range")     # (far away from a station at 85 degrees of latitude)
+                continue
+            if rng.random() < 0.15:
+                add_req(area, kind, mode)
+            else:
+                add_rx(area, kind, mode)
+                if mode == "corner" and rng.random() < 0.5:
+                    # the same centre, semi-axes and azimuth under the two other shapes: the verdict belongs to the shape
+                    for other in (0, 1, 2):
+                        if other != shape:
+                            add_rx(area[:5] + (other,), kind, mode, "_other_shape")
+            if ci % 12 == 11 and used:
+                # the station moves: an area used before is used again, and the verdict is the one for the new position
+                # (a position on the other side of its border, or anywhere)
+                old_area, old_kind = rng.choice(used)
+                bb = old_area[2] if old_area[5] == 0 else old_area[3]
+                was_in = rs.f_value(old_area, ego[0], ego[1]) >= 0
+                if was_in:
+                    uu, vv = rng.choice([-1, 1]) * rng.uniform(1.2, 2.5) * old_area[2], rng.uniform(-1, 1) * bb
+                else:
+                    uu, vv = rng.uniform(-0.5, 0.5) * old_area[2], rng.uniform(-0.5, 0.5) * bb
+                prev_ego = ego
+                if rng.random() < 0.3:
+                    ego = (ego[0] + rng.randrange(-3000, 3001), ego[1] + rng.randrange(-3000, 3001))
+                else:
+                    ego = point_in_frame(old_area, uu, vv)
+                if abs(ego[0]) <= 900000000 and abs(ego[1]) <= 1800000000:
+                    pv = list(st.ego0)
+                    pv[3], pv[4], pv[5] = sc.now % 2 ** 32, ego[0], ego[1]
+                    evs.append({"ev": "ego", "pv": pv})
+                    meta.append(None)
+                    add_rx(old_area, old_kind, "moved", "_area_reused")
+                    add_rx(old_area, "gac" if old_kind == "gbc" else "gbc", "moved", "_area_reused")
+                else:
+                    ego = prev_ego            # no move after all: the station stays where it is
+        if batch % 3 == 0:
+            # rectangles of exactly the maximum size, one octet more and one less (last in the batch: the model comparison
+            # stops at a size within 1 m2 of the limit, the oracle does not)
+            for (a, b) in rng.sample(EXACT_RECT[maxa], 2):
+                for (da, tag) in ((0, "_size_exactly_max"), (1, "_size_just_above_max"), (-1, "_size_just_below_max")):
+                    angle = rng.choice([0, 45, 90, 200])
+                    kind = rng.choice(["gbc", "gac"])
+                    inside = rng.random() < 0.4
+                    u, v = (0.3 * a, 0.3 * b) if inside else (1.5 * a, 0.2 * b)
+                    area = place_area(rng, ego, 1, a, b + da, angle, u, v)
+                    if abs(area[0]) > 900000000 or abs(area[1]) >= 2 ** 31:
+                        continue
+                    if rng.random() < 0.4:
+                        add_req(area, kind, "inside" if inside else "outside", tag)
+                    else:
+                        add_rx(area, kind, "inside" if inside else "outside", tag)
         impl, mtrace, skipped = rs.run_history(ctx, st, evs)
         oracle(ctx, st, evs, meta, impl)
     ctx.sample({"area(lat,lon,a,b,angle,shape)": list(area), "ego": list(ego), "mode": mode})
 
 
+def _progress(area, ego, nbs):
+    """greedy forwarding towards the centre of the area: is some neighbour closer to it than the station itself?
+    None when two distances are too close to tell"""
+    mfr = rs.dist_um(area[0], area[1], ego[0], ego[1])
+    ds = [rs.dist_um(area[0], area[1], e["pv"][4], e["pv"][5]) for e in nbs]
+    if any(abs(d - mfr) <= 5 for d in ds):
+        return None
+    return any(d < mfr for d in ds)
+
+
 def oracle(ctx, st, evs, meta, impl):
-    ego = (st.ego[4], st.ego[5])
+    cbf_alg = st.params["area_alg"] == 2
     for idx, (ev, mt, obs) in enumerate(zip(evs, meta, impl)):
         if mt is None:
             continue
-        what, area, mode = mt
+        what, area, mode, ego = mt
         f = rs.f_value(area, ego[0], ego[1])
         size = rs.area_size_m2(area)
         big = size > st.max_area_km2 * 1_000_000
-        near_size = abs(size - st.max_area_km2 * 1_000_000) < 1.0
+        # the size of a rectangle (4ab) is exact; circle and ellipse involve pi: within 1 m2 of the limit no verdict
+        near_size = area[5] != 1 and abs(size - st.max_area_km2 * 1_000_000) < 1.0
         inp = {"event_index": idx, "event": rs._ev_repr({k: v for k, v in ev.items() if k != "dests"}), "F_at_ego": f,
-               "ego": list(ego), "mode": mode, "area_m2": size}
+               "ego": list(ego), "mode": mode, "area_m2": size, "max_km2": st.max_area_km2}
         ctx.count(1, f"{what}_{mode}_shape{area[5]}")
+        nbs = [e for e in obs["state"]["loct"] if e["nb"]]
         if what == "req":
             if near_size:
                 continue
+            scf = ev["r"][5]
             if big and (obs["sent"] or obs["confirm"] != 6):
                 ctx.property_failure("oversized_request", inp, "a request for an area larger than itsGnMaxGeoAreaSize was not "
                                      "refused with GEOGRAPHICAL_SCOPE_TOO_LARGE", {"confirm": 6, "sent": 0},
                                      {"confirm": obs["confirm"], "sent": len(obs["sent"])})
             if not big and obs["confirm"] != 1:
-                ctx.property_failure("request_refused", inp, "a request for an admissible area was not accepted", 1, obs["confirm"])
+                ctx.property_failure("request_refused", inp, "a request for an admissible area (not larger than "
+                                     "itsGnMaxGeoAreaSize) was not accepted", 1, obs["confirm"])
+            if not big and abs(f) >= 1e-6 and (nbs or not scf):
+                # Annex D at the source: inside -> area forwarding (sent at once); outside -> towards the area: sent unless
+                # no neighbour is closer and the packet may be stored (SCF)
+                prog = True if f >= 0 else _progress(area, ego, nbs)
+                if prog is not None and (prog or not scf) and len(obs["sent"]) != 1:
+                    ctx.property_failure("request_not_sent", inp, "an accepted request for an admissible area was not "
+                                         "transmitted (exactly once)", 1, len(obs["sent"]))
             ctx.nontriv(("req", area))
             continue
         if abs(f) < 1e-6:
@@ -147,35 +246,59 @@ def oracle(ctx, st, evs, meta, impl):
         inside = f >= 0
         delivered = len(obs["inds"]) > 0
         fwd = [p for p in obs["sent"]]
+        buffered = [k for k in obs["state"]["cbf"] if list(k) == list(ev["src"]) + [ev["sn"]]]
         if obs["err"]:
             ctx.property_failure("exception", inp, "exception while processing a valid geo packet", None, obs["err"])
         if delivered != inside:
             ctx.property_failure("deliver_inside_mismatch", inp, "delivered to the upper layer while outside the area"
                                  if delivered else "not delivered although inside or on the border of the area",
                                  {"deliver": inside}, {"deliver": delivered})
-        if ev["kind"] == "gac" and inside and fwd:
+        if ev["kind"] == "gac" and inside and (fwd or buffered):
             ctx.property_failure("gac_inside_forwarded", inp, "a geo-anycast packet was forwarded by a station inside the area", 0, len(fwd))
-        if big and not near_size and (fwd or [k for k in obs["state"]["cbf"] if list(k) == list(ev["src"]) + [ev["sn"]]]):
+        if big and not near_size and (fwd or buffered):
             ctx.property_failure("oversized_forward", inp, "a packet for an area larger than itsGnMaxGeoAreaSize was forwarded", 0, len(fwd))
         # Annex D: ego outside and the sender is known (PAI set) to be inside -> discard
         se = next((e for e in obs["state"]["loct"] if list(e["addr"]) == list(ev["src"])), None)
-        if not inside and not big and se is not None and se["set"] and se["pv"][6]:
+        sender_inside = None     # None: no verdict (too close to the border)
+        if se is not None and se["set"] and se["pv"][6]:
             # the sender position known to the station is the (newest) position vector in its location table
             fse = rs.f_value(area, se["pv"][4], se["pv"][5])
-            if fse > 1e-6 and fwd:
-                ctx.property_failure("annexD_discard", inp, "ego outside and sender inside the area: Annex D says discard, "
-                                     "but the packet was forwarded", 0, len(fwd))
+            sender_inside = None if abs(fse) <= 1e-6 else fse > 0
+        else:
+            sender_inside = False          # no valid sender position: Annex D goes on to non-area forwarding
+        if not inside and not big and sender_inside and (fwd or buffered):
+            ctx.property_failure("annexD_discard", inp, "ego outside and sender inside the area: Annex D says discard, "
+                                 "but the packet was forwarded", 0, len(fwd))
+        # Annex D, the forwarding side: where the standard selects area or non-area forwarding the packet does go on
+        # (not oversized, hop limit >= 2 in every generated packet, and not held back by store-carry-forward)
+        scf = ev["scf"]
+        if not big and not near_size and (nbs or not scf) and ev["rhl"] >= 2:
+            if inside and ev["kind"] == "gbc":
+                went = bool(buffered) if cbf_alg else len(fwd) == 1
+                if not went:
+                    ctx.property_failure("area_forward_missing", inp, "ego inside the area: Annex D selects area forwarding, but "
+                                         "the GeoBroadcast packet was neither re-broadcast nor put into the CBF buffer",
+                                         "cbf buffer" if cbf_alg else 1, {"sent": len(fwd), "cbf": buffered})
+            elif not inside and sender_inside is False:
+                prog = _progress(area, ego, nbs)
+                if prog is not None and (prog or not scf) and len(fwd) != 1:
+                    ctx.property_failure("non_area_forward_missing", inp, "ego outside the area and the sender not known to be "
+                                         "inside: Annex D selects non-area forwarding (towards the area), but the packet was "
+                                         "not forwarded", 1, len(fwd))
         ctx.nontriv(("rx", ev["kind"], area, inside))
 
 
 def run(ctx):
-    ctx.rule = ("GBC / GAC packets (fresh source+SN each) and requests whose circle / rectangle / ellipse (semi-axes 1..65535 m, "
-                "azimuth 0..359) is placed so that the receiver lies inside, outside, just inside / outside the border, in the "
-                "rectangle corner, or far away, at five ego positions in all hemispheres, itsGnMaxGeoAreaSize in {1,10,100}; "
-                "delivery / forwarding / confirm checked against an independent evaluation of EN 302 931 (|F| < 1e-6 excluded) "
-                "and compared with the model; non-trivial = verdict outside the tolerance band; distinct by (kind, area, inside)")
+    ctx.rule = ("GBC / GAC packets (fresh source+SN each, every header field varied) and requests whose circle / rectangle / "
+                "ellipse (semi-axes 1..65535 m, azimuth 0..359) is placed so that the receiver lies inside, outside, just inside / "
+                "outside the border, in the rectangle corner (then also under the two other shapes), or far away, at seven ego "
+                "positions in all hemispheres incl. 85 N and 85 S; the station moves and earlier areas are used again; "
+                "itsGnMaxGeoAreaSize in {1,10,100} with rectangles of exactly that size, just above and just below; delivery / "
+                "forwarding / non-forwarding / confirm checked against an independent evaluation of EN 302 931 and Annex D "
+                "(|F| < 1e-6 excluded) and compared with the model; non-trivial = verdict outside the tolerance band; distinct by "
+                "(kind, area, inside)")
     rs.stack.patch_time()
-    run_cases(ctx, 9000 if ctx.tier == "quick" else 60000)
+    run_cases(ctx, 7200 if ctx.tier == "quick" else 60000)
     ctx.exhaustive = False
 
 
